@@ -96,6 +96,13 @@ def run(repo, res, tier):
     from vlib import rules_pipeline as RPL
     RPL.from_grammar_order(repo, res)  # levels are assigned after expansion, on the expression that is compiled
     c04.shared_cmd_ids(repo, res)
+    # shared with C04 / C02 / C12: two within-word expressions may share one table set only if every table printed for them is
+    # compared (ISOCOV); every item leaves level propagation with the level of the `||` branch it is written in, and no pass edits a
+    # shared node in place (LEVEL, ARENA-IMMUT); in matches mode a proper prefix of a literal does not end the scan of a complete word (SK-SUB)
+    c04.isocov(repo, res)
+    c02.levelfield(repo, res)
+    c02.arena_immut(repo, res, tier)
+    sk_bash.sub_rule(repo, res, tier)
     res.floor("PIPE", res.count("PIPE"), 4)
     res.floor("SK-WALK", res.count("SK-WALK"), 30)
     res.floor("SK-FB", res.count("SK-FB"), 14)
